@@ -263,3 +263,44 @@ Fixpoint run_cycles (n : nat) (score : list seg -> Z) (o : options) (st : state)
            end
   | _ => Failed
   end.
+
+(* n merger cycles in a row (no arrivals in between) *)
+Fixpoint iter_cycles (n : nat) (score : list seg -> Z) (o : options) (st : state) : res state :=
+  match n with
+  | O => Ok st
+  | S n' => r <- cycle score o st ;; iter_cycles n' score o (snd r)
+  end.
+
+(* the sizes of a state, ids forgotten *)
+Definition sizes (l : list seg) : list (Z * Z) := map (fun s => (seg_full s, seg_live s)) l.
+
+(* ---------- histories on sizes: arrivals, deletions and merger cycles ---------- *)
+Inductive event :=
+| EArrive (full live : Z)     (* a batch is persisted as a new segment (id = ++nextSegmentID) *)
+| EDelete (id d : Z)          (* d documents of segment id are deleted: its live size drops *)
+| ECycle.                     (* the merger plans on the current segments and executes the plan *)
+
+Definition delete_in (id d : Z) (l : list seg) : list seg :=
+  map (fun s => if seg_id s =? id then mkseg (seg_id s) (seg_full s) (seg_live s - d) else s) l.
+
+(* tasks that are not no-ops *)
+Definition useful_tasks (ts : list (list seg)) : Z := zlen (filter (fun t => negb (noop_task t)) ts).
+
+(* runs the history; `work` accumulates the number of useful tasks executed *)
+Fixpoint run_history (score : list seg -> Z) (o : options) (h : list event) (st : state) (work : Z)
+  : res (state * Z) :=
+  match h with
+  | [] => Ok (st, work)
+  | EArrive f l :: h' =>
+      run_history score o h' (fst st ++ [mkseg (snd st + 1) f l], snd st + 1) work
+  | EDelete i d :: h' => run_history score o h' (delete_in i d (fst st), snd st) work
+  | ECycle :: h' =>
+      r <- cycle score o st ;;
+      run_history score o h' (snd r)
+        (work + match fst r with Some ts => useful_tasks ts | None => 0 end)
+  end.
+
+Definition arrivals (h : list event) : Z :=
+  zlen (filter (fun e => match e with EArrive _ _ => true | _ => false end) h).
+Definition deletions (h : list event) : Z :=
+  zlen (filter (fun e => match e with EDelete _ _ => true | _ => false end) h).
